@@ -21,6 +21,15 @@ Tie to the source:
     ("callkw")  and  @partial(state, first=True)  ("partial", functools.partial: also one call).
     The last four go through the `return _State(f, first, must_finish)` path of state(); the
     model has them as DStateCall.  A mark must count whichever spelling carries it.
+  * a state function need not be a plain def when the state decorator sees it (e["wrap"]): behind
+    a shared functools.wraps-based decorator ("wraps" = logged, "wraps2" = traced, "both"; all
+    functions such a decorator returns have ONE code object, inspect.signature follows __wrapped__),
+    stamped out by one factory ("factory": one code object, the signature in __signature__), a
+    functools.partial object or a lambda given a __name__ ("partial", "lambda"; an unnamed lambda
+    is the state "<lambda>").  e["params"]/e["fname"]/e["doc"] are what inspect.signature /
+    __name__ / inspect.getdoc report for IT, and every state is judged by these alone, whatever
+    was defined before -- in the same class, in an earlier class, in an earlier case (the prelude
+    of every case run carries a number of its own so that no code object is shared across cases).
   * every case carries a HISTORY (spec["history"]; default_history when absent): a list of events
     {"c": i, "name": tag} = o = C<i>(); setup_tunables(o, "c12_<tag>", "components"), and
     {"pub": "names"|"descs", "name": tag, "value": [..]} = a plain NetworkTables publisher sets the
@@ -199,6 +208,66 @@ def src_shadowed(key):
     return is_reserved(sm, key)
 
 
+WRAPS = ["wraps", "wraps2", "both", "factory", "partial", "lambda"]
+INSPECT_KIND = {"PosOnly": "POSITIONAL_ONLY", "PosOrKw": "POSITIONAL_OR_KEYWORD", "VarPos": "VAR_POSITIONAL",
+                "KwOnly": "KEYWORD_ONLY", "VarKw": "VAR_KEYWORD"}
+
+# What a case needs when some state function is not a plain def (e["wrap"]).  <case> is a number
+# of its own for every run of a case: code objects compare by value, so without it the wrapper
+# functions of two cases would be one and the same dict key for anything keyed by __code__, and a
+# case would no longer be independent of the cases run before it in the same process.
+PRELUDE = '''import functools, inspect
+
+def logged(fn):
+    """an ordinary signature-preserving decorator: every function it returns has the SAME code object
+    (wrapper's); inspect.signature follows __wrapped__ and reports the signature of fn"""
+    @functools.wraps(fn)
+    def wrapper(*args, **kwargs):
+        _case = <case>
+        return fn(*args, **kwargs)
+    return wrapper
+
+def traced(fn):
+    @functools.wraps(fn)
+    def wrapper(*args, **kwargs):
+        _case = -<case>
+        return fn(*args, **kwargs)
+    return wrapper
+
+def stamped(name, params, doc=None):
+    """one factory for many state functions: same code object, the signature given by __signature__"""
+    def fn(*args, **kwargs):
+        _case = <case>
+        return tuple(args)
+    fn.__name__ = fn.__qualname__ = name
+    fn.__doc__ = doc
+    P = inspect.Parameter
+    fn.__signature__ = inspect.Signature([P(n, getattr(P, k), default=(None if d else P.empty)) for n, k, d in params])
+    return fn
+
+def named(fn, name, doc=None):
+    """a callable without a usable __name__ (functools.partial object, lambda) given one"""
+    fn.__name__ = name
+    fn.__doc__ = doc
+    return fn
+'''
+
+
+def uses_wrap(spec):
+    return any(e.get("wrap") for c in spec["classes"] for e in c["body"] if e["m"] == "state")
+
+
+def wrap_decorators(wrap):
+    """The user decorators between the state decorator and the def, outermost first."""
+    return {"wraps": ["logged"], "wraps2": ["traced"], "both": ["logged", "traced"]}.get(wrap, [])
+
+
+def lambda_src(e):
+    names = [n for n, _, _ in e["params"]]
+    ps = render_params(e["params"])
+    return "lambda%s: (%s)" % (" " + ps if ps else "", "".join(n + ", " for n in names))
+
+
 def render_class(i, c):
     """Source of class statement i (with the factories its body needs)."""
     pre, body = [], []
@@ -206,20 +275,53 @@ def render_class(i, c):
     head = "class C%d(%s):" % (i, bases) if bases else "class C%d:" % i
     for j, e in enumerate(c["body"]):
         if e["m"] == "state":
-            if e.get("form", "def") == "def" and direct_call(e["deco"]):
+            wrap = e.get("wrap")
+            isdef = e.get("form", "def") == "def"
+            target = e["fname"] if isdef else e["attr"]
+            decos = ["    @" + d for d in wrap_decorators(wrap)]
+            if wrap == "factory":
+                #   s1 = state(first=True)(stamped("s1", [("self", "POSITIONAL_OR_KEYWORD", False), ..], doc))
+                ps = "[%s]" % ", ".join("(%r, %r, %r)" % (n, INSPECT_KIND[k], bool(d)) for n, k, d in e["params"])
+                expr = "stamped(%r, %s, %r)" % (e["fname"], ps, e.get("doc"))
+                body.append("    %s = %s" % (target, apply_deco(e["deco"], expr)))
+            elif wrap == "partial":
+                #   def _p0_1(_tag, self, tm): ..      s1 = state(..)(named(partial(_p0_1, 0), "s1", doc))
+                helper = "_p%d_%d" % (i, j)
+                names = [n for n, _, _ in e["params"]]
+                ps = render_params([["_tag", "PosOnly" if any(k == "PosOnly" for _, k, _ in e["params"]) else "PosOrKw", False]]
+                                   + e["params"])
+                pre.append("def %s(%s):" % (helper, ps))
+                pre.append("    return (%s)" % "".join(n + ", " for n in names))
+                expr = "named(partial(%s, 0), %r, %r)" % (helper, e["fname"], e.get("doc"))
+                body.append("    %s = %s" % (target, apply_deco(e["deco"], expr)))
+            elif wrap == "lambda":
+                #   s1 = state(..)(named(lambda self, tm: (self, tm, ), "s1", doc));  an unnamed lambda is "<lambda>"
+                expr = lambda_src(e)
+                if e["fname"] != "<lambda>":
+                    expr = "named(%s, %r, %r)" % (expr, e["fname"], e.get("doc"))
+                else:
+                    expr = "(%s)" % expr
+                body.append("    %s = %s" % (target, apply_deco(e["deco"], expr)))
+            elif isdef and direct_call(e["deco"]):
+                #   [@logged]
                 #   def go(self): ..
                 #   go = state(go, first=True)
+                body += decos
                 body += render_func(e, 4)
                 body.append("    %s = %s" % (e["fname"], apply_deco(e["deco"], e["fname"])))
-            elif e.get("form", "def") == "def":
+            elif isdef:
                 body.append("    @" + render_deco(e["deco"]))
+                body += decos
                 body += render_func(e, 4)
             else:
                 fac = "_f%d_%d" % (i, j)
                 pre.append("def %s():" % fac)
                 pre += render_func(e, 4)
                 pre.append("    return %s" % e["fname"])
-                body.append("    %s = %s" % (e["attr"], apply_deco(e["deco"], fac + "()")))
+                expr = fac + "()"
+                for d in reversed(wrap_decorators(wrap)):
+                    expr = "%s(%s)" % (d, expr)
+                body.append("    %s = %s" % (e["attr"], apply_deco(e["deco"], expr)))
         elif e["m"] == "ref":
             body.append("    %s = %s" % (e["attr"], render_src(e["src"])))
         elif e["m"] == "method":
@@ -239,6 +341,7 @@ def render(spec):
 def source_text(spec):
     return ("from functools import partial\n"
             "from magicbot.state_machine import StateMachine, state, timed_state, default_state\n\n"
+            + (PRELUDE.replace("<case>", "1") + "\n" if uses_wrap(spec) else "")
             + "\n".join(render(spec)) + render_history(spec))
 
 
@@ -283,6 +386,9 @@ def sm_flags(spec):
 
 # --------------------------------------------------------------------------
 # running one case against the implementation
+_case_no = [0]
+
+
 def run_case(spec):
     """Returns obs = {"def_err": None | [cls, code], "extras": [[..]..], "init": [[topic, value]..],
     "events": [one record per event of history_of(spec)], "adapters": [[cls, key, [vals]]],
@@ -294,6 +400,9 @@ def run_case(spec):
           "timed_state": sm.timed_state, "default_state": sm.default_state}
     obs = {"def_err": None, "extras": [], "init": [], "events": [], "adapters": [], "harness_ok": True}
     classes = []
+    if uses_wrap(spec):
+        _case_no[0] += 1
+        exec(compile(PRELUDE.replace("<case>", str(_case_no[0])), "<c12 prelude>", "exec"), ns)
     for i, chunk in enumerate(render(spec)):
         code = compile(chunk, "<c12 class C%d>" % i, "exec")
         try:
@@ -696,6 +805,7 @@ def gen_fixed(sm, ctx):
         {"bases": [1, 2], "body": [st("z_duration"), st("k", deco=["default"])]}]}))
     cases += gen_rebinding_fixed()
     cases += gen_spelling_fixed()
+    cases += gen_wrapped_fixed()
     return cases
 
 
@@ -990,6 +1100,81 @@ ORDERS = ["asc", "desc", "shuffle", "each-twice", "each-thrice"]
 OLD_VALUES = [["old_a", "old_b"], ["zz"], [], ["s1", "s2", "s3", "s4", "s5", "s6"], ["stale", "", "stale"]]
 
 
+BAD_SIGS = {
+    "bad-name": [["self", "PosOrKw", False], ["speed", "PosOrKw", False]],
+    "first-not-self": [["this", "PosOrKw", False], ["tm", "PosOrKw", False]],
+    "varargs": [["self", "PosOrKw", False], ["args", "VarPos", False]],
+    "kwargs": [["self", "PosOrKw", False], ["tm", "PosOrKw", False], ["kw", "VarKw", False]],
+    "kw-only": [["self", "PosOrKw", False], ["tm", "KwOnly", False]],
+}
+
+
+def gen_wrapped_fixed():
+    """State functions that are not plain defs when the state decorator sees them: behind a shared
+    functools.wraps-based decorator (one code object for all of them, inspect.signature follows
+    __wrapped__), behind another one, behind both, stamped out by one factory (one code object, the
+    signature in __signature__), functools.partial objects and lambdas given a __name__.  Every
+    state is judged by the signature inspect.signature reports for IT: a legal one first and an
+    illegal one later (same class, derived class, unrelated machine), the other way round, legal
+    ones with different signatures next to each other (the adapters must differ), mixed with
+    plain defs."""
+    cases = []
+
+    def add(spec):
+        cases.append(("wrapped", spec))
+    sig_tm = [["self", "PosOrKw", False], ["tm", "PosOrKw", False]]
+    sig_st = [["self", "PosOrKw", False], ["state_tm", "PosOrKw", False], ["initial_call", "PosOrKw", False]]
+    decos = [["state", False, False], ["timed", False, True, "1.0"], ["default"], ["state", False, False, "call"]]
+    n = 0
+    for w in WRAPS:
+        for form in ("def", "assign"):
+            ok = lambda name="ok", ps=sig_tm, wrap=w, deco=None, doc="fine": dict(
+                st(name, params=ps, deco=deco or FIRST, doc=doc, form=form), wrap=wrap)
+            # legal ones only, different signatures behind the same wrapper
+            add(one_class([ok(), ok("b", sig_st, deco=["state", False, False], doc=None),
+                           ok("c", [["self", "PosOrKw", False]], deco=["timed", False, False, "0.5"], doc="c doc")]))
+            add({"classes": [{"bases": ["SM"], "body": [ok()]},
+                             {"bases": [0], "body": [ok("b", sig_st, deco=["default"], doc="B.b")]},
+                             {"bases": ["SM"], "body": [ok("go", sig_st, deco=["state", True, False, "call"])]}]})
+            for kind, ps in BAD_SIGS.items():
+                deco = decos[n % len(decos)]
+                n += 1
+                bad = lambda wrap=w: dict(st("bad", params=ps, deco=list(deco), doc="bad one", form=form), wrap=wrap)
+                add(one_class([bad(), ok()]))                       # the illegal one comes first
+                add(one_class([ok(), bad()]))                       # .. after a legal one behind the same wrapper
+                add(one_class([ok(), ok("b", sig_st, deco=["state", False, False]), other("m"), bad(), ok("z", deco=["state", False, False])]))
+                add({"classes": [{"bases": ["SM"], "body": [ok()]}, {"bases": [0], "body": [bad()]}]})
+                add({"classes": [{"bases": ["SM"], "body": [ok()]}, {"bases": ["SM"], "body": [ok("go"), bad()]}]})
+                add(one_class([ok(wrap=None), bad()]))              # .. after a legal plain def
+                add(one_class([ok(), bad(wrap=None)]))              # a plain illegal def after a legal wrapped one
+                add(one_class([bad()]))                             # on its own
+    # an unnamed lambda is called "<lambda>": bound under any attribute name it is an alias
+    add(one_class([st("a", deco=FIRST), dict(st("<lambda>", params=sig_tm, attr="s1", form="assign"), wrap="lambda")]))
+    add(one_class([dict(st("<lambda>", params=sig_tm, deco=FIRST, attr="s1", form="assign"), wrap="lambda")], bases=()))
+    # the wrapper in a plain class, under another name, with a reserved name
+    add(one_class([dict(st("a", deco=FIRST), wrap="wraps")], bases=()))
+    add(one_class([st("a", deco=FIRST), dict(st("b", attr="c", form="assign"), wrap="wraps")]))
+    for w in WRAPS:
+        add(one_class([st("a", deco=FIRST), dict(st("done", attr="done", form="assign"), wrap=w)]))
+    return cases
+
+
+def add_wraps(rng, spec, tags):
+    """Puts part of the state functions of a generated hierarchy behind user decorators / makes them
+    factory products, partial objects or lambdas (30 % of the cases; in a case with a faulty signature
+    more often, and then mostly ALL states the same way, so that legal and illegal signatures share
+    whatever the wrapped functions share)."""
+    states = [e for c in spec["classes"] for e in c["body"] if e["m"] == "state" and not e.get("wrap")]
+    if not states or rng.random() >= (0.6 if "fault:sig" in tags else 0.3):
+        return None
+    kind = rng.choice(WRAPS + ["wraps", "factory", "mixed"])
+    p = rng.choice([1.0, 1.0, 0.6])
+    for e in states:
+        if rng.random() < p:
+            e["wrap"] = rng.choice(WRAPS) if kind == "mixed" else kind
+    return "wrap:" + kind
+
+
 def attach_history(rng, spec):
     """Gives the case a history: every StateMachine class is attempted at least twice -- base
     classes before their subclasses, subclasses before their base classes, back to back or
@@ -1062,7 +1247,7 @@ def gen_cases(sm, ctx):
     else:
         for _ in range(400):
             cases.append((["sig-len3-sample"], sig_case(with_defaults(r, r.choice(sig3)))))
-    total = 40000 if thorough else 3300
+    total = 40500 if thorough else 3800
     while len(cases) < total:
         tags, c = gen_hier(r)
         if r.random() < 0.2:
@@ -1072,8 +1257,13 @@ def gen_cases(sm, ctx):
         cases.append((["hier"] + tags, c))
     # histories come from a stream of their own: the definitions are those of earlier versions
     hrng = random.Random("c12-history-%d" % ctx.seed)
+    wrng = random.Random("c12-wrap-%d" % ctx.seed)
     out = []
     for tags, c in cases:
+        if tags[0] == "hier":
+            t = add_wraps(wrng, c, tags)
+            if t:
+                tags = tags + [t]
         if "history" not in c and tags != ["corpus"]:
             tags = tags + ["hist:" + t for t in attach_history(hrng, c)]
         out.append((tags, c))
@@ -1179,11 +1369,18 @@ def plain(s):
 
 
 # --------------------------------------------------------------------------
-def shrink(spec, fp):
-    """Greedy: drop body entries / docs / trailing classes while the same failure remains."""
+def shrink(spec, fp, verdict=None, budget=None):
+    """Greedy: drop body entries / docs / trailing classes while the same failure remains.
+    verdict: spec -> oracle verdict (default: run in this process); budget: at most that many runs."""
+    left = [budget]
+
     def fails(s):
+        if left[0] is not None:
+            if left[0] <= 0:
+                return False
+            left[0] -= 1
         try:
-            v = oracle(s, run_case(s))
+            v = verdict(s) if verdict else oracle(s, run_case(s))
         except Exception:
             return False
         return v is not None and v[0] == fp
@@ -1226,6 +1423,18 @@ def shrink(spec, fp):
                 break
         if changed:
             continue
+        for i, c in enumerate(cur["classes"]):      # plain defs where the failure does not need more
+            for j, e in enumerate(c["body"]):
+                if e["m"] == "state" and e.get("wrap") and e["fname"] != "<lambda>":
+                    cand = json.loads(json.dumps(cur))
+                    del cand["classes"][i]["body"][j]["wrap"]
+                    if fails(cand):
+                        cur, changed = cand, True
+                        break
+            if changed:
+                break
+        if changed:
+            continue
         for i, c in enumerate(cur["classes"]):
             for j, e in enumerate(c["body"]):
                 if e["m"] == "state" and (e.get("doc") is not None or len(e["params"]) > 1):
@@ -1261,6 +1470,67 @@ def drop_class(spec, j):
     cand["history"] = [dict(ev, c=ren(ev["c"])) if "c" in ev else ev
                        for ev in cand.get("history", []) if ev.get("c") != j]
     return cand
+
+
+def fresh_verdict(specs):
+    """The oracle's verdict on the LAST of the cases when they are run one after the other in a NEW
+    interpreter (same $VERIF_REPO): what a replay will see.  "error" if the child did not answer."""
+    import subprocess
+    import sys
+    from .common import ROOT
+    code = ("import sys, json\nsys.path.insert(0, %r)\nfrom harness import c12\nspecs = json.load(sys.stdin)\n"
+            "for s in specs:\n    obs = c12.run_case(s)\nprint('##' + json.dumps(c12.oracle(specs[-1], obs)))\n" % ROOT)
+    try:
+        p = subprocess.run([sys.executable, "-c", code], input=json.dumps(specs), capture_output=True, text=True,
+                           timeout=600, cwd=ROOT)
+        for line in p.stdout.splitlines():
+            if line.startswith("##"):
+                v = json.loads(line[2:])
+                return tuple(v) if v else None
+    except Exception:
+        pass
+    return ("error", "the fresh interpreter gave no verdict")
+
+
+def confirmed_violation(spec, v, earlier):
+    """Turns a failing case into something that fails ON ITS OWN in a fresh interpreter (a replay):
+    the shrunk case if that still fails there; else the case as generated (shrunk with fresh
+    interpreters, bounded); else -- the failure needs definitions that ran earlier in this process --
+    the case together with a short list `before` of earlier cases (found by halving `earlier`)."""
+    fp = v[0]
+    small = shrink(spec, fp)
+    v2 = oracle(small, run_case(small)) or v
+    fv = fresh_verdict([small])
+    if fv is not None and fv[0] == fp:
+        return violation(small, v2)
+    fv = fresh_verdict([spec])
+    if fv is not None and fv[0] == fp:
+        small = shrink(spec, fp, verdict=lambda s_: fresh_verdict([s_]), budget=40)
+        return violation(small, fresh_verdict([small]) or fv)
+    before = [json.loads(json.dumps(s_)) for s_ in earlier]
+    ok = lambda l: (lambda r_: r_ is not None and r_[0] == fp)(fresh_verdict(l + [spec]))
+    if not before or not ok(before):
+        return violation(small, v2)          # not reproducible outside this process: reported as seen here
+    while len(before) > 1:
+        half = len(before) // 2
+        if ok(before[half:]):
+            before = before[half:]
+        elif ok(before[:half]):
+            before = before[:half]
+        else:
+            break
+    j = 0
+    while len(before) <= 12 and j < len(before) and len(before) > 1:
+        cand = before[:j] + before[j + 1:]
+        if ok(cand):
+            before = cand
+        else:
+            j += 1
+    fv = fresh_verdict(before + [spec])
+    out = violation(spec, fv)
+    out["before"] = before
+    out["what"] = "after %d earlier class definition(s) in the same interpreter (replay: 'before'): %s" % (len(before), fv[1])
+    return out
 
 
 def violation(spec, v):
@@ -1336,6 +1606,8 @@ Print Assumptions impl_history.
         ctx.count("classes=%d" % len(spec["classes"]))
         for c_ in spec["classes"]:
             for e_ in c_["body"]:
+                if e_["m"] == "state":
+                    ctx.count("state-function=%s" % (e_.get("wrap") or "plain def"))
                 if e_["m"] == "state" and e_["deco"][0] == "state":
                     ctx.count("state-spelling=%s%s" % (spelling(e_["deco"]) or "factory",
                                                        ":first" if e_["deco"][1] else ""))
@@ -1397,7 +1669,9 @@ Print Assumptions impl_history.
                 "(<=3 in thorough) over 5 kinds x 6 names, random hierarchies of 1-4 classes (single/linear/diamond/"
                 "mix-in/plain mix-in) with overriding state-by-state, by plain method/value and back; the decorator state in "
                 "every spelling (factory, bare, state(f, first=..), state(f=f, ..), partial(state, ..)); second bindings "
-                "of existing state objects (same body, derived class, other machine, plain class; own/new name); every case with "
+                "of existing state objects (same body, derived class, other machine, plain class; own/new name); state functions "
+                "that are not plain defs (shared functools.wraps decorators, one factory with __signature__, partial objects, "
+                "lambdas) with legal and illegal signatures in either order within a class and across classes; every case with "
                 "an instantiation history (each StateMachine class attempted 2-3 times, base-first / subclass-first / shuffled / "
                 "back to back; bound under 1-3 component names so that lists of other classes and values of plain publishers "
                 "are already on the topics; lists read through the instance and through an independent subscriber); non-trivial = "
@@ -1415,20 +1689,19 @@ Print Assumptions impl_history.
             tags, spec, obs = records[i]
             v = oracle(spec, obs)
             if v is not None:
-                small = shrink(spec, v[0])
-                v2 = oracle(small, run_case(small)) or v
-                return [violation(small, v2)]
+                return [confirmed_violation(spec, v, [rec_[1] for rec_ in records[:i]])]
         r = ctx.rng
+        ran = [rec_[1] for rec_ in records]
         for _ in range(30000):
             tags, spec = gen_hier(r)
             if r.random() < 0.3:
                 add_rebinding(r, spec)
+            add_wraps(r, spec, tags)
             attach_history(r, spec)
             v = oracle(spec, run_case(spec))
             if v is not None:
-                small = shrink(spec, v[0])
-                v2 = oracle(small, run_case(small)) or v
-                return [violation(small, v2)]
+                return [confirmed_violation(spec, v, ran)]
+            ran.append(spec)
         return []
 
     return ctx.finish(search=search)
@@ -1439,6 +1712,10 @@ def replay(ctx, obj):
         print("replay names broken obligations only: %s" % [b["name"] for b in obj.get("broken_obligations", [])])
         return run(ctx)
     spec = obj["case"]
+    for k, b in enumerate(obj.get("before", [])):
+        print("# ---- defined before, in the same interpreter (%d of %d)" % (k + 1, len(obj["before"])))
+        print(source_text(b))
+        run_case(b)
     print(source_text(spec))
     obs = run_case(spec)
     print("observed: %s" % json.dumps({k: v for k, v in obs.items() if k != "harness_ok"}))
